@@ -498,3 +498,88 @@ func CorpusLockSurvivesCommitteeChange(o *drv.Out) {
 		fmt.Sprintf("A before the reset: %s; first round with a live leader: +%d, committed after +%d rounds: %s", lockA, firstLive, rounds-1, c01.CommitsStr(s)))
 	r.End()
 }
+
+// CorpusPhaseSplitInterrupt runs in virtual time under the given phase timeouts (ELECTION .. COMMIT, ms). Validator 0 is
+// silent; in round 0 the PRECOMMIT is withheld from replica 3, so the correct replicas abandon the round in different
+// phases — replica 3 in PRECOMMIT_VOTE, the leader in COMMIT (no +2/3 of precommit votes), the third one in COMMIT_PROCESS.
+// RoundInterrupt must let all of them start round 1 at the same instant (msLeftInRound = what is left of the round), and
+// with delivery within 10 ms the first round with a live leader commits. A replica that wakes at another time misses the
+// phase windows of the others, and all three are needed.
+func CorpusPhaseSplitInterrupt(o *drv.Out, ts [7]int) {
+	cfg := corpusCfg(1)
+	cfg.Timeouts = &ts
+	probe := bftsim.New(cfg)
+	for ; ; cfg.Salt++ {
+		probe.SetSalt(cfg.Salt)
+		if l := probe.FallbackLeader(10, 0); l == 1 || l == 2 {
+			break
+		}
+	}
+	r := c01.NewRun(o, fmt.Sprintf("corpus/phase-split-interrupt/timeouts%v", ts), cfg)
+	s := r.Sim()
+	t := &timed{r: r, s: s, o: o, planA: -1, next: []int64{-1, 0, 0, 0}, roundStart: make([]int64, 4)}
+	firstLive := uint64(0)
+	for rd := uint64(1); rd < 12; rd++ {
+		if s.FallbackLeader(10, rd) != 0 {
+			firstLive = rd
+			break
+		}
+	}
+	starts := map[uint64][]int64{}
+	for steps := 0; steps < 1500 && honestCommits(s) == 0 && !r.Failed(); steps++ {
+		mi, ti := -1, -1
+		for j, f := range t.flight {
+			if mi < 0 || f.at < t.flight[mi].at {
+				mi = j
+			}
+		}
+		for j, at := range t.next {
+			if at >= 0 && (ti < 0 || at < t.next[ti]) {
+				ti = j
+			}
+		}
+		if mi < 0 && ti < 0 {
+			break
+		}
+		if mi >= 0 && (ti < 0 || t.flight[mi].at <= t.next[ti]) {
+			f := t.flight[mi]
+			t.flight = append(t.flight[:mi], t.flight[mi+1:]...)
+			t.now = max(t.now, f.at)
+			r.Deliver(f.e)
+		} else {
+			t.now = max(t.now, t.next[ti])
+			before := s.Nodes[ti].B.Phase
+			if w := t.fireHonest(ti); w < 0 {
+				t.next[ti] = -1
+			} else {
+				t.next[ti] = t.now + w
+			}
+			if b := s.Nodes[ti].B; before == bft.Pacemaker {
+				starts[b.Round] = append(starts[b.Round], t.now)
+			}
+			if s.Nodes[ti].B.Round > firstLive+2 {
+				break
+			}
+		}
+		for _, e := range s.Take(func(*bftsim.Envelope) bool { return true }) {
+			switch {
+			case e.Kind == "ELECTION" || e.To == 0:
+			case e.Kind == "PRECOMMIT" && e.Msg.Header.Round == 0 && e.To == 3:
+			case e.From == e.To:
+				t.flight = append(t.flight, &inflight{t.now, e})
+			default:
+				t.flight = append(t.flight, &inflight{t.now + 10, e})
+			}
+		}
+	}
+	commitRound := int64(-1)
+	for _, c := range s.Commits {
+		if c.Accepted && !s.IsByz[c.Rep] && commitRound < 0 {
+			commitRound = int64(c.View.Round)
+		}
+	}
+	verdict(o, r, "C15:no-commit-within-bound:round-realignment",
+		"replicas that abandon a round in different phases must start the next round together", commitRound == int64(firstLive),
+		fmt.Sprintf("round-1 start times of the correct replicas (ms): %v; first round with a live leader: %d, first commit in round %d", starts[1], firstLive, commitRound))
+	r.End()
+}
